@@ -256,11 +256,45 @@ class Union(T):
 
 
 class Tup(T):
-    def __init__(self, *ts: T):
-        self.ts = ts
+    """fixed-arity tuple of storable components; values are python tuples, the z3 sort is a tuple datatype"""
+    _cache: dict = {}
+
+    def __new__(cls, *ts):
+        key = tuple(id(t) if not isinstance(t, (Ref, Enum)) else t for t in ts)
+        key = tuple(repr(t) for t in ts)
+        if key in Tup._cache:
+            return Tup._cache[key]
+        inst = object.__new__(cls)
+        inst.ts = ts
+        inst._sort = None
+        Tup._cache[key] = inst
+        return inst
+
+    def __init__(self, *ts):
+        pass
+
+    def __repr__(self):
+        return "Tup(" + ",".join(map(repr, self.ts)) + ")"
+
+    def _mk(self):
+        if self._sort is None:
+            name = "Tup_" + "_".join(str(t.z3sort()) for t in self.ts)
+            self._sort, self._cons, self._acc = z3.TupleSort(name, [t.z3sort() for t in self.ts])
+        return self._sort
+
+    def z3sort(self):
+        return self._mk()
 
     def fresh(self, name):
         return tuple(t.fresh(f"{name}.{i}") for i, t in enumerate(self.ts))
+
+    def wrap(self, z):
+        self._mk()
+        return tuple(t.wrap(z3.simplify(a(z))) for t, a in zip(self.ts, self._acc))
+
+    def pack(self, v):
+        self._mk()
+        return self._cons(*[to_z3(x, t) for x, t in zip(v, self.ts)])
 
 
 class Const(T):
@@ -724,6 +758,8 @@ def to_z3(v, t: T):
             return v.z
         if isinstance(v, enum.Enum) and v in t.consts:
             return t.consts[v]
+    if isinstance(t, Tup) and isinstance(v, tuple) and len(v) == len(t.ts):
+        return t.pack(v)
     if z3.is_expr(v):
         return v
     raise Unsupported(f"cannot convert {v!r} to {t!r}")
@@ -739,6 +775,8 @@ def default_z3(t: T):
         return z3.RealVal(0)
     if isinstance(t, Enum):
         return t.consts[t.members[0]]
+    if isinstance(t, Tup):
+        return t.pack(tuple(default_z3(x) for x in t.ts))
     return z3.Const(f"dflt!{s.name()}", s)
 
 
@@ -764,6 +802,10 @@ def type_of(v):
         return Map(v.tk, v.tv, v.keys is not None)
     if isinstance(v, SSet):
         return Set(v.tk, v.keys is not None)
+    if isinstance(v, tuple) and v:
+        ts = [type_of(x) for x in v]
+        if all(t is not None and not isinstance(t, (Seq, Map, Set)) for t in ts):
+            return Tup(*ts)
     return None
 
 
